@@ -30,7 +30,7 @@ func vpHostList2(n, affix int, twice bool) []string {
 	return hs
 }
 
-//vp:property C03
+//vp:property C03 C12
 //vp:set hosts 2 3
 //vp:set affix 1 1
 //vp:set user 2 3
@@ -48,8 +48,15 @@ func VP_C03_policy() {
 	id := identity.NewUser()
 	id.SetUserName(user)
 	tun := &protocol.Tunnel{User: id}
+	before := append([]string{}, Hosts...) // main.go hands the same slice to the download handler
 	ok, _ := CheckHost(vpCtxWith(tun, id), host)
 	vpObserveBool("ok", ok)
+	vpAssert(len(Hosts) == len(before), "a-host-check-leaves-the-configured-host-list-alone")
+	for i := range before {
+		if i < len(Hosts) {
+			vpAssert(Hosts[i] == before[i], "a-host-check-leaves-the-configured-host-list-alone")
+		}
+	}
 
 	// oracle from the property text
 	want := false
